@@ -3,7 +3,9 @@
 (* C02: the signature the real fc emitted for each function (read back     *)
 (* with go/parser) must be the translation of the principal type, for      *)
 (* every subset of redundant annotations; all versions of a function must  *)
-(* emit the same code.  One line per (function, annotation subset):        *)
+(* emit the same code.  A version with an INFORMATIVE result annotation   *)
+(* (fn.ast.rtype) is a function of its own: principal type of the problem *)
+(* with the equation ret = rtype.  One line per (function, annotation subset):        *)
 (*   [fn |-> [ast, ...], status, ntparams, gparams, gres, samecode]        *)
 (***************************************************************************)
 EXTENDS FoInferGen, Json
@@ -20,7 +22,7 @@ TStep ==
                /\ t.ntparams = p.ntparams          \* type parameters T0.. exactly for the undetermined types
                /\ t.gparams = p.params             \* parameter types: concrete where determined, Tk by first occurrence
                /\ t.gres = p.res
-               /\ t.samecode                       \* same emitted code as the un-annotated version
+               /\ (t.samecode \/ "rtype" \in DOMAIN t.fn.ast)   \* same emitted code as the un-annotated version (redundant annotations)
      IN bad' = IF ok THEN bad ELSE Append(bad, l)
   /\ l' = l + 1
   /\ IF l = Len(Trace) THEN PrintT(<<"TRACE-END", Len(Trace), bad'>>) ELSE TRUE
